@@ -16,6 +16,10 @@ COMPOUND_OPS = {"+=": "add", "-=": "sub", "*=": "mul", "/=": "div", "%=": "mod",
                 "^=": "bitwise_xor", "<<=": "bitwise_lshift", ">>=": "bitwise_rshift"}
 
 
+METHOD_OPS = {"load_aligned", "load_unaligned", "store_aligned", "store_unaligned", "get"}
+STATIC_METHODS = {"load_aligned", "load_unaligned"}
+
+
 class Unsupported(Exception):
     pass
 
@@ -65,9 +69,14 @@ def classify(name, dem):
                 nargs = 1 + len([p for p in pts if p.kind not in ("tag", "empty")])
                 op = OPERATOR_OPS.get((sym, nargs))
                 level = "member"
+        elif ct.kind in ("batch", "bool", "cbatch") and base in METHOD_OPS:
+            cls_type = ct
+            level, op = "method", base
     if not op:
         return None
-    return Fn(name, s, level, op, pts, cls_type)
+    fn = Fn(name, s, level, op, pts, cls_type)
+    fn.static = (level == "method" and base in STATIC_METHODS)
+    return fn
 
 
 # ----------------------------------------------------------------------------------------------------------------
@@ -100,6 +109,15 @@ class Arg:
 
     def im(self, i):
         return self.val.lane(self.tid, i, base=self.val.size // 2)
+
+    # memory (kind P): element i of the array the pointer addresses, as a bit pattern
+    def elem(self, i, old=False):
+        e = "%s[%d]" % (self.scalar, i)
+        if old:
+            e = "__CPROVER_old(%s)" % e
+        if TYPES[self.tid][3] == "f":
+            return "F2U%d(%s)" % (self.w, e)
+        return "((%s)%s)" % (UW[self.w], e)
 
     # batch_bool
     def truth(self, i):
@@ -163,7 +181,7 @@ def bind(fn, sigjson, tinfo, native=False):
     if irp and irp[0]["sret"]:
         sret = irp.pop(0)
     this = None
-    if fn.cls_type is not None:
+    if fn.cls_type is not None and not getattr(fn, "static", False):
         this = irp.pop(0)
     dem = [p for p in fn.ptypes if p.kind != "empty"]
     if len(dem) != len(irp):
@@ -292,7 +310,16 @@ def harness_text(ctx, name, hname="harness"):
                 L.append("  %s OBS_%d_%d = %s;" % ({"u": UW.get(nb * 8, "u8"), "f": "f%d" % (nb * 8), "p": "u64"}[lk], k, j, e))
                 obs.append(("OBS_%d_%d" % (k, j), k, kind, off, nb, lk))
         elif kind == "mem":
-            call.append("HARNESS_MEM_%d" % k)
+            nbytes = getattr(ctx, "mem_bytes", {}).get(cname)
+            if nbytes is None:
+                raise Unsupported("memory parameter %s without a size in its contract row" % cname)
+            # an object of exactly the accessed size: any access beyond it is a bounds failure
+            L.append("  u8 *M%d = (u8*)__CPROVER_allocate(%d, 0);" % (k, nbytes))
+            L.append("  __CPROVER_assume(M%d != 0);" % k)
+            for j in range(nbytes):
+                L.append("  u8 OBS_%d_%d = M%d[%d];" % (k, j, k, j))
+                obs.append(("OBS_%d_%d" % (k, j), k, kind, j, 1, "u"))
+            call.append("(%s)M%d" % (ctype, k))
         k += 1
     if hasattr(ctx, "harness_pre"):
         L += ctx.harness_pre
